@@ -539,7 +539,12 @@ fn crate_tables(tcx: TyCtxt<'_>) -> (J, J) {
                 let adt = tcx.adt_def(did);
                 let repr = adt.repr();
                 let mut vars = Vec::new();
-                for v in adt.variants() {
+                let discrs: Vec<String> = if adt.is_enum() {
+                    adt.discriminants(tcx).map(|(_, d)| format!("{}", d.val)).collect()
+                } else {
+                    Vec::new()
+                };
+                for (vidx, v) in adt.variants().iter().enumerate() {
                     let mut fs = Vec::new();
                     for f in v.fields.iter() {
                         let fty = tcx.type_of(f.did).instantiate_identity().skip_norm_wip();
@@ -549,10 +554,14 @@ fn crate_tables(tcx: TyCtxt<'_>) -> (J, J) {
                             ("vis".into(), s(format!("{:?}", f.vis))),
                         ]));
                     }
-                    vars.push(J::Obj(vec![
+                    let mut vo = vec![
                         ("name".into(), s(v.name.to_string())),
                         ("fields".into(), J::Arr(fs)),
-                    ]));
+                    ];
+                    if let Some(dv) = discrs.get(vidx) {
+                        vo.push(("discr".into(), s(dv.clone())));
+                    }
+                    vars.push(J::Obj(vo));
                 }
                 adts.push(J::Obj(vec![
                     ("name".into(), s(path_str(tcx, did))),
